@@ -1,11 +1,15 @@
 (* props/C03.v - BFieldCodec: round trip, unique encoding, static length, documented layout.
-   Statements only; every proof is `exact <lemma of proofs/CodecProofs.v>`. *)
+   Statements only; every proof is `exact <lemma of proofs/CodecProofs.v>`.
+   `decode chk` : chk = true is the overflow-checked build profile, chk = false the release profile.
+   The model is the repaired list decoder (/repo commit e869325); the width-0 item types that made the
+   round trip fail before (Vec<PhantomData<_>>, [PhantomData<_>; N], ...) are covered by the same theorems
+   (see C03_roundtrip_width0). *)
 From Coq Require Import ZArith NArith Bool List.
 From TF Require Import Codec CodecProofs.
 Import ListNotations.
 Open Scope Z_scope.
 
-(* decode (encode v) = v, for every type of the grammar and both build profiles *)
+(* decode (encode v) = v, for every type of the grammar (unbounded nesting) and both build profiles *)
 Theorem C03_roundtrip : forall (chk : bool) (t : ty) (v : value),
   has_type t v = true -> zlen (encode t v) < 2 ^ 64 -> decode chk t (encode t v) = Ok v.
 Proof. exact roundtrip. Qed.
@@ -15,8 +19,85 @@ Example C03_roundtrip_hyp :
   /\ encode (TTuple [TVec TPhantom; TOption TU64]) (VList [VList [VUnit; VUnit]; VSome (VInt 4294967296)]) = [3; 1; 0; 1; 1; 2].
 Proof. split; reflexivity. Qed.
 
+(* the class that failed before the repair: list items of encoded width 0 *)
+Example C03_roundtrip_width0 :
+  decode false (TVec TPhantom) [3] = Ok (VList [VUnit; VUnit; VUnit])
+  /\ decode false (TVec TPhantom) [0] = Ok (VList [])
+  /\ decode true (TArray 3 TPhantom) [] = Ok (VList [VUnit; VUnit; VUnit])
+  /\ decode true (TArray 0 TPhantom) [] = Ok (VList [])
+  /\ decode false (TVec (TU32s 0)) [2] = Ok (VList [VList []; VList []]).
+Proof. repeat split; reflexivity. Qed.
+
+(* any accepted sequence is THE encoding of the decoded value, and that value is well typed *)
+Theorem C03_unique : forall (chk : bool) (t : ty) (s : list Z) (v : value),
+  canon_seq s = true -> decode chk t s = Ok v -> has_type t v = true /\ encode t v = s.
+Proof. exact unique_b. Qed.
+Print Assumptions C03_unique.
+Example C03_unique_hyp : canon_seq [2; 1; 7; 0] = true /\ decode false (TVec (TOption TU8)) [2; 2; 1; 7; 1; 0] = Ok (VList [VSome (VInt 7); VNone]).
+Proof. split; reflexivity. Qed.
+
+(* hence: encoding is injective, and no value has two accepted encodings *)
+Theorem C03_encode_injective : forall (t : ty) (v1 v2 : value),
+  has_type t v1 = true -> has_type t v2 = true -> zlen (encode t v1) < 2 ^ 64 -> encode t v1 = encode t v2 -> v1 = v2.
+Proof. exact encode_injective. Qed.
+Print Assumptions C03_encode_injective.
+
+Theorem C03_one_accepted_encoding : forall (chk : bool) (t : ty) (s1 s2 : list Z) (v : value),
+  canon_seq s1 = true -> canon_seq s2 = true -> decode chk t s1 = Ok v -> decode chk t s2 = Ok v -> s1 = s2.
+Proof. exact decode_injective_b. Qed.
+Print Assumptions C03_one_accepted_encoding.
+
 (* a static length is the length of every encoding *)
 Theorem C03_static_len : forall (t : ty) (n : Z) (v : value),
   static_length t = Some n -> has_type t v = true -> zlen (encode t v) = n.
 Proof. exact static_len. Qed.
 Print Assumptions C03_static_len.
+Example C03_static_len_hyp : static_length (TStruct [TU64; TArray 5 TBfe; TPhantom]) = Some 7.
+Proof. reflexivity. Qed.
+
+(* documented layout.  component t v = the encoding of v, prefixed by its length iff t is dynamically sized *)
+Theorem C03_layout_record : forall (ts : list ty) (vs : list value), length ts = length vs ->
+  encode (TTuple ts) (VList vs) = concat (rev (map (fun tv => component (fst tv) (snd tv)) (combine ts vs)))
+  /\ encode (TStruct ts) (VList vs) = concat (rev (map (fun tv => component (fst tv) (snd tv)) (combine ts vs))).
+Proof. exact layout_record. Qed.
+Print Assumptions C03_layout_record.
+
+Theorem C03_layout_tuple3 : forall a b c x y z,
+  encode (TTuple [a; b; c]) (VList [x; y; z]) = component c z ++ component b y ++ component a x.
+Proof. exact layout_tuple3. Qed.
+Print Assumptions C03_layout_tuple3.
+
+Theorem C03_layout_vec : forall (t : ty) (l : list value),
+  encode (TVec t) (VList l) = zlen l :: concat (map (component t) l).
+Proof. exact layout_vec. Qed.
+Print Assumptions C03_layout_vec.
+
+Theorem C03_layout_array : forall (n : N) (t : ty) (l : list value),
+  encode (TArray n t) (VList l) = concat (map (component t) l).
+Proof. exact layout_array. Qed.
+Print Assumptions C03_layout_array.
+
+Theorem C03_layout_option : forall (t : ty) (v : value),
+  encode (TOption t) VNone = [0] /\ encode (TOption t) (VSome v) = 1 :: encode t v.
+Proof. exact layout_option. Qed.
+Print Assumptions C03_layout_option.
+
+Theorem C03_layout_poly : forall (t : ty) (l : list value), last_nonzero l = true ->
+  encode (TPoly t) (VList l) = zlen (encode (TVec t) (VList l)) :: encode (TVec t) (VList l).
+Proof. exact layout_poly. Qed.
+Print Assumptions C03_layout_poly.
+
+Theorem C03_layout_enum : forall vs d l fs, znth_opt d vs = Some fs -> length fs = length l ->
+  encode (TEnum vs) (VEnum d l) = d :: concat (rev (map (fun tv => component (fst tv) (snd tv)) (combine fs l))).
+Proof. exact layout_enum. Qed.
+Print Assumptions C03_layout_enum.
+
+Theorem C03_layout_u64 : forall z, encode TU64 (VInt z) = [z mod 4294967296; (z / 4294967296) mod 4294967296].
+Proof. exact layout_u64. Qed.
+Print Assumptions C03_layout_u64.
+
+(* a polynomial is encoded through its normalised coefficients *)
+Theorem C03_poly_normalised : forall (t : ty) (l : list value),
+  encode (TPoly t) (VList l) = encode (TPoly t) (VList (strip_zeros l)).
+Proof. exact encode_poly_normalises. Qed.
+Print Assumptions C03_poly_normalised.
